@@ -41,8 +41,17 @@ func initSigIdentities() {
 		return
 	}
 	mkCert := func(pub, priv interface{}, serial int64) string {
+		// validity windows: around the block times of the cases, ended long before them, beginning long after them (the registry
+		// verifies a stored signature under the stored certificate; it is no certificate authority and the property knows no clock)
+		nb, na := int64(1600000000), int64(2600000000)
+		switch serial % 3 {
+		case 1:
+			nb, na = 1500000000, 1600000000
+		case 2:
+			nb, na = 2500000000, 2600000000
+		}
 		tmpl := &x509.Certificate{SerialNumber: big.NewInt(serial), Subject: pkix.Name{CommonName: fmt.Sprintf("verif-%d", serial)},
-			NotBefore: time.Unix(1600000000, 0), NotAfter: time.Unix(2600000000, 0), KeyUsage: x509.KeyUsageDigitalSignature}
+			NotBefore: time.Unix(nb, 0), NotAfter: time.Unix(na, 0), KeyUsage: x509.KeyUsageDigitalSignature}
 		der, err := x509.CreateCertificate(rand.Reader, tmpl, tmpl, pub, priv)
 		if err != nil {
 			panic(err)
@@ -403,6 +412,25 @@ func runSigCase(ta *TestApp, seed uint64, idx int, rep *Report, profile string) 
 				ops = append(ops, fmt.Sprintf("(SVerify %s %s, %s)", coqStr(addr), coqStr(ref), optStrs([]string{resp.Signature, resp.Algorithm, resp.Certificate, resp.Timestamp}, true)))
 			} else {
 				ops = append(ops, fmt.Sprintf("(SVerify %s %s, None)", coqStr(addr), coqStr(ref)))
+			}
+			// C15: the verdict is a function of the stored record: the same query at other block times (before the certificate's
+			// validity, long after it, the zero time of a context without a header) gives the same answer
+			if verifyPanic == "" {
+				for _, ot := range []time.Time{{}, time.Unix(1400000000, 0).UTC(), time.Unix(1650000000, 0).UTC(), bt.Add(24 * time.Hour), time.Unix(2700000000, 0).UTC()} {
+					var r2 *sigtypes.QueryVerifySignatureResponse
+					var e2 error
+					func() {
+						defer func() {
+							if r := recover(); r != nil {
+								e2 = fmt.Errorf("panic: %v", r)
+							}
+						}()
+						r2, e2 = k.VerifySignature(sdk.WrapSDKContext(ctx.WithBlockTime(ot)), &sigtypes.QueryVerifySignatureRequest{TargetAccAddress: addr, ReferenceId: ref})
+					}()
+					got2 := e2 == nil && r2 != nil
+					rep.Eval("C15.verdict_does_not_depend_on_the_block_time", got2 == got, idx, s,
+						fmt.Sprintf("verify(%s,%s): valid=%v at block time %s, valid=%v at block time %s (%v)", addr, ref, got, bt.Format(time.RFC3339), got2, ot.Format(time.RFC3339), e2))
+				}
 			}
 			rep.Count("op.verify")
 			if want {
